@@ -153,6 +153,9 @@ COMBINES = [
     I('combine', None, pre=1, path='missing.css'),
     I('combine', b'\xff', decode=1, sourceencoding='ascii'),
     I('combine', None, pp=1, path='good.css'),
+    I('combine', '@variables{c:red} a{color:var(c)}', pp=1, minify=False, resolveVariables=False),
+    I('combine', '@variables{c:red} a{color:var(c)}', pp=1, minify=True, resolveVariables=False),
+    I('combine', 'a{color:red} /*c*/', pp=1, minify=False, resolveVariables=True),
 ]
 NPREFS = 4
 NPROFS = 2
